@@ -122,6 +122,12 @@ func (r *Run) AddViolation(v Violation) {
 	r.Violations = append(r.Violations, v)
 }
 
+func (r *Run) ViolationCount() int {
+	r.mu.Lock()
+	defer r.mu.Unlock()
+	return len(r.Violations)
+}
+
 // AddPart records a sub-result (engine part) in the evidence.
 func (r *Run) AddPart(p map[string]interface{}) {
 	r.mu.Lock()
